@@ -16,12 +16,18 @@
 //!   p<t>.<v>  `provide_context(Ctx_t(v))`   u<t>  `use_context::<Ctx_t>()` -> event U<t>=v|-
 //!   t<t>      `take_context::<Ctx_t>()` -> event T<t>=v|-
 //!   e<b>      `Effect::new(body b)`         m<b>  `Memo::new(body b)`       o  `Owner::new()`
+//!   E<b>      `Effect::new_sync(body b)`    I<b>  `Effect::new_isomorphic(body b)`
+//!   w<b>.<h>  `Effect::watch(body b, handler body h, false)`   W<b>.<h>  the same with `immediate = true`
+//!             (handler bodies: only r/c/i/s/u tokens are executed; event H<e> when the handler starts)
+//!   v<b>      `RenderEffect::new(body b)` (handle retained; `dispose e <k>` drops it)
+//!   a<b>      `AsyncDerived::new(move || { body b; async move { sum } })` (future ready at once)
 //!
 //! Op lines:
 //!   case <name>
 //!   body <tok,tok,..|->           define the next body (e<b>/m<b> inside must name an earlier body)
 //!   [in <o>]* x <tok>             run one token under `owners[o].with(..)` (nested for several `in`)
 //!   [in <o>]* cleanup <o>         `owners[o].cleanup()`
+//!   [in <o>]* wc <o> <b>          `owners[o].with_cleanup(|| body b)`
 //!   child <o>                     `owners[o].child()`
 //!   drop <o>                      drop the harness's handle (last strong reference for plain owners)
 //!   dispose <i|s|m|e> <k>         `.dispose()` on that handle
@@ -41,15 +47,16 @@
 //! (`Shadow`: which scope created what), never consulting `Owner` internals:
 //!   twice, not-run, order, stray-cleanup (cleanups exactly once, descendants first, nothing else),
 //!   not-disposed, frame, stale-resolves (handles), zombie-effect, ctx-survives-cleanup / ctx-wrong
-//!   (nearest *current* provider), leak (at `end`), arena-len (only with `--cfg leptos_verif`).
+//!   (nearest *current* provider), leak (at `end`), arena-len (only with `--cfg leptos_verif`),
+//!   watch-handler-unowned / owner-lost (something is created for a scope while no owner is current).
 use hx_common::*;
 use reactive_graph::{
-    computed::{ArcMemo, Memo},
-    effect::Effect,
+    computed::{ArcMemo, AsyncDerived, Memo},
+    effect::{Effect, RenderEffect},
     graph::ToAnySubscriber,
     owner::{
         on_cleanup, provide_context, take_context, use_context, LocalStorage,
-        Owner, StoredValue,
+        Owner, StoredValue, SyncStorage,
     },
     signal::RwSignal,
     traits::*,
@@ -79,6 +86,11 @@ enum BOp {
     Effect(usize),
     Memo(usize),
     NewOwner,
+    EffectSync(usize),
+    EffectIso(usize),
+    Watch(usize, usize, bool),
+    Render(usize),
+    Async(usize),
 }
 
 fn parse_tok(t: &str, max_body: usize) -> Option<BOp> {
@@ -106,6 +118,18 @@ fn parse_tok(t: &str, max_body: usize) -> Option<BOp> {
         "t" => BOp::Take(ty(rest)?),
         "e" => BOp::Effect(num(rest).filter(|b| (*b as usize) < max_body)? as usize),
         "m" => BOp::Memo(num(rest).filter(|b| (*b as usize) < max_body)? as usize),
+        "E" => BOp::EffectSync(num(rest).filter(|b| (*b as usize) < max_body)? as usize),
+        "I" => BOp::EffectIso(num(rest).filter(|b| (*b as usize) < max_body)? as usize),
+        "v" => BOp::Render(num(rest).filter(|b| (*b as usize) < max_body)? as usize),
+        "a" => BOp::Async(num(rest).filter(|b| (*b as usize) < max_body)? as usize),
+        "w" | "W" => {
+            let (a, b) = rest.split_once('.')?;
+            BOp::Watch(
+                num(a).filter(|b| (*b as usize) < max_body)? as usize,
+                num(b).filter(|b| (*b as usize) < max_body)? as usize,
+                k == "W",
+            )
+        }
         "o" if rest.is_empty() => BOp::NewOwner,
         _ => return None,
     })
@@ -128,6 +152,7 @@ enum Ev {
     G(usize, Option<i64>),
     U(usize, Option<i64>),
     T(usize, Option<i64>),
+    H(usize),
 }
 
 fn opt(v: &Option<i64>) -> String {
@@ -144,6 +169,7 @@ impl Ev {
             Ev::G(m, v) => format!("G{m}={}", opt(v)),
             Ev::U(t, v) => format!("U{t}={}", opt(v)),
             Ev::T(t, v) => format!("T{t}={}", opt(v)),
+            Ev::H(e) => format!("H{e}"),
         }
     }
 }
@@ -246,8 +272,10 @@ struct World {
     items: Vec<StoredValue<i64>>,
     sigs: Vec<RwSignal<i64>>,
     memos: Vec<Memo<i64>>,
-    effs: Vec<Effect<LocalStorage>>,
+    effs: Vec<AnyEff>,
     bodies: Vec<Vec<BOp>>,
+    /// Some(e) while the handler of watch effect `e` runs
+    in_handler: Option<usize>,
     events: Vec<Ev>,
     status: BTreeMap<String, String>,
     memo_depth: usize,
@@ -258,6 +286,16 @@ struct World {
     baseline: usize,
     active: bool,
     eff_runs: Vec<u32>,
+}
+
+/// every constructor that re-runs a body under an owner of its own
+enum AnyEff {
+    /// being constructed (the first run of a render effect / async derived happens inside `new`)
+    Pending,
+    Local(Effect<LocalStorage>),
+    Sync(Effect<SyncStorage>),
+    Render(Option<RenderEffect<()>>),
+    Async(AsyncDerived<i64>),
 }
 
 thread_local! {
@@ -309,13 +347,25 @@ impl World {
                 }))
                 .is_ok()
             }
-            H::E(k) => {
-                let e = self.effs[k];
-                catch_unwind(AssertUnwindSafe(|| {
-                    let _s = e.to_any_subscriber();
-                }))
-                .is_ok()
-            }
+            H::E(k) => match &self.effs[k] {
+                AnyEff::Pending => true,
+                AnyEff::Local(e) => {
+                    let e = *e;
+                    catch_unwind(AssertUnwindSafe(|| {
+                        let _s = e.to_any_subscriber();
+                    }))
+                    .is_ok()
+                }
+                AnyEff::Sync(e) => {
+                    let e = *e;
+                    catch_unwind(AssertUnwindSafe(|| {
+                        let _s = e.to_any_subscriber();
+                    }))
+                    .is_ok()
+                }
+                AnyEff::Render(r) => r.is_some(),
+                AnyEff::Async(a) => !a.is_disposed(),
+            },
         }
     }
 
@@ -345,10 +395,30 @@ impl World {
 
     // ---- shadow operations (no callbacks into user closures can happen inside these)
 
+    /// the program structure attributes what is being created to a scope, but no owner is current
+    fn owner_missing(&mut self, what: &str) -> bool {
+        if self.sh.ambient().is_some() && Owner::current().is_none() {
+            match self.in_handler {
+                Some(e) => {
+                    self.tags.insert("watch-handler");
+                    self.fail(
+                        "watch-handler-unowned",
+                        format!("the handler of watch effect {e} runs with no current owner: {what} is not released with the effect's scope"),
+                    )
+                }
+                None => self.fail("owner-lost", format!("{what} created for a scope while no owner is current")),
+            }
+            true
+        } else {
+            false
+        }
+    }
+
     fn sh_register_cleanup(&mut self) -> usize {
         let cid = self.sh.cid_runs.len();
         self.sh.cid_runs.push(0);
-        let a = self.sh.ambient();
+        let lost = self.owner_missing("a cleanup");
+        let a = if lost { None } else { self.sh.ambient() };
         self.sh.cid_owner.push(a);
         if let Some(a) = a {
             self.sh.owners[a].cleanups.push(cid);
@@ -358,7 +428,8 @@ impl World {
 
     fn sh_new_handle(&mut self, h: H) {
         self.sh.exp_live.insert(h, true);
-        match self.sh.ambient() {
+        let lost = self.owner_missing("an arena value");
+        match if lost { None } else { self.sh.ambient() } {
             Some(a) => self.sh.owners[a].handles.push(h),
             None => {
                 self.sh.unowned.insert(h);
@@ -483,7 +554,7 @@ fn run_body(b: usize) -> i64 {
     sum
 }
 
-fn run_effect_body(eid: usize, b: usize) {
+fn run_effect_body(eid: usize, b: usize) -> i64 {
     // closure entry: `with_cleanup`'s cleanup phase has just finished
     w(|w| {
         if w.sh.doomed[eid] {
@@ -505,6 +576,28 @@ fn run_effect_body(eid: usize, b: usize) {
         w.sh.cur.pop();
     });
     ev(Ev::S(eid, sum));
+    sum
+}
+
+/// the handler of `Effect::watch`: ideally part of the effect's scope
+fn run_handler(eid: usize, hb: usize) {
+    ev(Ev::H(eid));
+    w(|w| {
+        let o = w.sh.e_owner[eid];
+        w.sh.cur.push(Some(o));
+        w.in_handler = Some(eid);
+    });
+    let body = w(|w| w.bodies[hb].clone());
+    let mut sum = 0;
+    for op in &body {
+        if matches!(op, BOp::Read(_) | BOp::Cleanup(_) | BOp::Item(_) | BOp::Sig(_) | BOp::Use(_)) {
+            exec_bop(op, &mut sum);
+        }
+    }
+    w(|w| {
+        w.sh.cur.pop();
+        w.in_handler = None;
+    });
 }
 
 fn run_memo_body(mid: usize, b: usize) -> i64 {
@@ -647,20 +740,82 @@ fn exec_bop(op: &BOp, sum: &mut i64) {
                 if w.sh.ambient().is_some() {
                     w.tags.insert("nested");
                 }
-                let a = w.sh.ambient();
-                let so = w.sh.new_owner(a);
-                w.sh.e_owner.push(so);
-                w.sh.doomed.push(false);
-                w.eff_runs.push(0);
-                w.effs.len()
+                new_eff_slot(w)
             });
             let sentinel = Sentinel(eid);
             let e = Effect::new(move |_: Option<()>| {
                 let _keep = &sentinel;
-                run_effect_body(eid, b)
+                run_effect_body(eid, b);
             });
             w(|w| {
-                w.effs.push(e);
+                w.effs[eid] = AnyEff::Local(e);
+                w.sh_new_handle(H::E(eid));
+            });
+        }
+        BOp::EffectSync(b) | BOp::EffectIso(b) => {
+            let eid = w(|w| {
+                w.tags.insert("sync-effect");
+                new_eff_slot(w)
+            });
+            let sentinel = Sentinel(eid);
+            let f = move |_: Option<()>| {
+                let _keep = &sentinel;
+                run_effect_body(eid, b);
+            };
+            let e = if matches!(op, BOp::EffectSync(_)) { Effect::new_sync(f) } else { Effect::new_isomorphic(f) };
+            w(|w| {
+                w.effs[eid] = AnyEff::Sync(e);
+                w.sh_new_handle(H::E(eid));
+            });
+        }
+        BOp::Watch(b, hb, imm) => {
+            let eid = w(|w| {
+                w.tags.insert("watch");
+                new_eff_slot(w)
+            });
+            let sentinel = Sentinel(eid);
+            let e = Effect::watch(
+                move || {
+                    let _keep = &sentinel;
+                    run_effect_body(eid, b)
+                },
+                move |_: &i64, _: Option<&i64>, _: Option<()>| run_handler(eid, hb),
+                imm,
+            );
+            w(|w| {
+                w.effs[eid] = AnyEff::Local(e);
+                w.sh_new_handle(H::E(eid));
+            });
+        }
+        BOp::Render(b) => {
+            let eid = w(|w| {
+                w.tags.insert("render");
+                new_eff_slot(w)
+            });
+            let sentinel = Sentinel(eid);
+            let e = RenderEffect::new(move |_: Option<()>| {
+                let _keep = &sentinel;
+                run_effect_body(eid, b);
+            });
+            w(|w| {
+                w.effs[eid] = AnyEff::Render(Some(e));
+                // not an arena entry: it lives as long as its handle
+                w.sh.exp_live.insert(H::E(eid), true);
+            });
+        }
+        BOp::Async(b) => {
+            let eid = w(|w| {
+                w.tags.insert("async");
+                new_eff_slot(w)
+            });
+            let sentinel = Sentinel(eid);
+            let a = AsyncDerived::new(move || {
+                let _keep = &sentinel;
+                let v = run_effect_body(eid, b);
+                async move { v }
+            });
+            w(|w| {
+                w.effs[eid] = AnyEff::Async(a);
                 w.sh_new_handle(H::E(eid));
             });
         }
@@ -692,6 +847,17 @@ fn exec_bop(op: &BOp, sum: &mut i64) {
     }
 }
 
+/// reserve the effect id and its shadow scope (a child of the ambient scope)
+fn new_eff_slot(w: &mut World) -> usize {
+    let a = w.sh.ambient();
+    let so = w.sh.new_owner(a);
+    w.sh.e_owner.push(so);
+    w.sh.doomed.push(false);
+    w.eff_runs.push(0);
+    w.effs.push(AnyEff::Pending);
+    w.effs.len() - 1
+}
+
 // ---------------------------------------------------------------- op lines
 
 fn reset_case() {
@@ -711,6 +877,7 @@ fn reset_case() {
 enum Act {
     X(BOp),
     Cleanup(usize),
+    Wc(usize, usize),
 }
 
 fn held(o: usize) -> Option<Owner> {
@@ -746,6 +913,24 @@ fn run_in(ins: &[usize], act: &Act) -> bool {
                 });
                 true
             }
+            Act::Wc(o, b) => {
+                let Some(owner) = held(*o) else { return false };
+                let (o, b) = (*o, *b);
+                owner.with_cleanup(|| {
+                    // the cleanup phase is over: the scope has been released
+                    w(|w| {
+                        w.tags.insert("with-cleanup");
+                        let so = w.sh.o_map[o];
+                        w.sh_release(so, false);
+                        w.sh.cur.push(Some(so));
+                    });
+                    run_body(b);
+                    w(|w| {
+                        w.sh.cur.pop();
+                    });
+                });
+                true
+            }
         },
     }
 }
@@ -754,7 +939,7 @@ fn run_in(ins: &[usize], act: &Act) -> bool {
 fn refs_ok(ins: &[usize], act: &Act) -> bool {
     ins.iter().all(|o| held(*o).is_some())
         && match act {
-            Act::Cleanup(o) => held(*o).is_some(),
+            Act::Cleanup(o) | Act::Wc(o, _) => held(*o).is_some(),
             _ => true,
         }
 }
@@ -790,6 +975,13 @@ fn op_line(words: &[&str]) -> Option<bool> {
         ["x", tok] => {
             let b = parse_tok(tok, nb)?;
             let act = Act::X(b);
+            if !refs_ok(&ins, &act) {
+                return Some(false);
+            }
+            Some(run_in(&ins, &act))
+        }
+        ["wc", o, b] => {
+            let act = Act::Wc(num(o)?, num(b).filter(|b| *b < nb)?);
             if !refs_ok(&ins, &act) {
                 return Some(false);
             }
